@@ -37,6 +37,8 @@
 //	                               outer join on L with a side that carries L, or "by-over-by joins": a matcher label L
 //	                               kept by an inner label-fixing step (by(.., L) / one-to-one on(.., L)) and dropped by an
 //	                               outer by(), joined WITHOUT on()/ignoring() with a side aggregated by the same labels
+//	g.Reattach(t) string           a label excluded on one side ({L=""}, without(L), ignoring(L), aggregation) and brought
+//	                               back through a 2-3 name list with L in every position: group_left/right(..), by(..), on(..)
 //	g.Top(t)     string            Vector, sometimes `X or Y` (when g.OrTop), sometimes Scalar (when g.ScalarTop)
 //
 // All generated text parses with the Prometheus parser (the generator is typed);
